@@ -241,8 +241,20 @@ def run_cbmc(work_out, unwind, unwindset=(), default_checks=False, timeout_s=180
         res["tail"] = out[-1200:]
         res["status"] = "OOM" if re.search(r"[Oo]ut of memory|bad_alloc", out) else "ERROR"
         return res
-    res["failed"] = [c for c in checks if c["status"] != "SUCCESS"]
-    res["status"] = "FAILED" if res["failed"] else "SUCCESS"
+    if re.search(r"ran out of memory|[Oo]ut of memory|bad_alloc", out):
+        # CBMC reports the properties it could not decide as ERROR/UNKNOWN: nothing of this run is a verdict
+        res["status"] = "OOM"
+        res["tail"] = "solver ran out of memory (cap %s GB)" % mem_gb
+        return res
+    res["failed"] = [c for c in checks if c["status"] == "FAILURE"]
+    undecided = [c for c in checks if c["status"] not in ("SUCCESS", "FAILURE")]
+    if res["failed"]:
+        res["status"] = "FAILED"
+    elif undecided:
+        res["status"] = "ERROR"
+        res["tail"] = "undecided properties: %d (first: %s %s)" % (len(undecided), undecided[0]["description"], undecided[0]["status"])
+    else:
+        res["status"] = "SUCCESS"
     return res
 
 
